@@ -296,7 +296,7 @@ def discharge(P, ctxs, ob):
     if kind == "index" and len(args) > 1:
         # an index that is a phi of alternatives: each alternative is judged under the conditions of its own definition site
         r0 = T.strip(args[1])
-        if r0[0] == "agg" and (r0[2] or "").endswith(("ops::RangeFrom", "ops::RangeTo")) and T.strip(r0[4][0])[0] == "phi":
+        if r0[0] == "agg" and (r0[2] or "").endswith(("ops::RangeFrom", "ops::RangeTo")) and T.strip(r0[4][0])[0] in ("phi", "loopvar"):
             alts = _alts_with_sites(b, S, t["args"][1], blk, n)
             if alts:
                 cont = args[0]
